@@ -63,11 +63,27 @@ def opOf (j : Json) : Except String ROp := do
   | "drop" => return .drop
   | t => throw s!"unmodelled op {t}"
 
+/-- the typed responders (`typed::status::X(body)`, `X`, `X::at(location)`) are what they are defined as: `Response::OK().with_payload(CONTENT_TYPE, body)`
+    under the status `X` (which is the status of the case), nothing for `()` and the no-value statuses, `Location` for a redirect -/
+def opsOf (j : Json) : Except String (List ROp) := do
+  let arr ← j.getArr?
+  let tag ← (arr.getD 0 Json.null).getStr?
+  let s (i : Nat) : Except String String := (arr.getD i Json.null).getStr?
+  if tag == "typed" then
+    match (← s 1) with
+    | "string" | "str" => return [.payload (toBytes "text/plain; charset=UTF-8") (fromHex (← s 3))]
+    | "html" => return [.payload (toBytes "text/html; charset=UTF-8") (fromHex (← s 3))]
+    | "json" => return [.payload (toBytes "application/json") (fromHex (← s 3))]
+    | "unit" | "bare" => return []
+    | "redirect" => return [.h (.insert (← std "Location") (fromHex (← s 3)))]
+    | k => throw s!"unmodelled typed responder {k}"
+  else return [← opOf j]
+
 def runCase (j : Json) : Except String Json := do
   let c ← j.getObjVal? "case"
   let status ← jnat c "status"
   let date ← jstr c "date"
-  let ops ← (← jarr c "ops").toList.mapM opOf
+  let ops := (← (← jarr c "ops").toList.mapM opsOf).flatten
   let fin := build cfg status (toBytes date) ops
   return Json.mkObj [("id", (j.getObjValD "id")),
     ("model", Json.mkObj [("wire", toHex (render cfg fin)), ("declared", declared cfg fin)])]
